@@ -206,35 +206,57 @@ Definition ks_sp_prepare_vmaps (s : ks_sp) : res ks_sp :=
   bind (ks_mapM (ks_pb_prepare_vmap (kp_mapped s)) (kp_parts s)) (fun l =>
     Ok (ks_mkSP (kp_np s) l (kp_mapped s) (kp_tp s))).
 
-(* NiSkinPartition::GenerateTriPartsFromTrueTriangles (Skin.cpp:451-476).
-   std::unordered_map<Triangle,int> is an association list: a new binding shadows older ones. *)
-Fixpoint ks_tri_index (ts : list tri) (i : Z) (m : list (tri * Z)) : list (tri * Z) :=
+(* NiSkinPartition::GenerateTriPartsFromTrueTriangles (Skin.cpp:451-485).
+   std::unordered_map<Triangle, std::vector<int>> is an association list; per key the shape
+   indices in push_back (= ascending) order. *)
+Definition ks_tmap := list (tri * list Z).
+
+Fixpoint ks_tmap_push (m : ks_tmap) (key : tri) (i : Z) : ks_tmap :=
+  match m with
+  | [] => [(key, [i])]
+  | (k, l) :: r => if ks_tri_eqb k key then (k, l ++ [i]) :: r else (k, l) :: ks_tmap_push r key i
+  end.
+
+Fixpoint ks_tri_index (ts : list tri) (i : Z) (m : ks_tmap) : ks_tmap :=
   match ts with
   | [] => m
-  | t :: r => ks_tri_index r (i + 1)%Z ((ks_rot t, i) :: m)
+  | t :: r => ks_tri_index r (i + 1)%Z (ks_tmap_push m (ks_rot t) i)
   end.
 
-Fixpoint ks_tri_find (m : list (tri * Z)) (t : tri) : option Z :=
+Fixpoint ks_tri_find (m : ks_tmap) (t : tri) : option (list Z) :=
   match m with
   | [] => None
-  | (k, i) :: r => if ks_tri_eqb k t then Some i else ks_tri_find r t
+  | (k, l) :: r => if ks_tri_eqb k t then Some l else ks_tri_find r t
   end.
 
-Fixpoint ks_assign_tris (m : list (tri * Z)) (pts : list tri) (partInd : Z) (tp : list Z) : res (list Z) :=
+(* for (int triInd : it->second) if (triParts[triInd] < 0) { triParts[triInd] = partInd; break; } *)
+Fixpoint ks_claim (idxs : list Z) (partInd : Z) (tp : list Z) : res (list Z) :=
+  match idxs with
+  | [] => Ok tp
+  | j :: r =>
+    match vget tp (Z.to_N j) with
+    | None => Fault
+    | Some v =>
+      if (v <? 0)%Z then
+        match vset tp (Z.to_N j) partInd with
+        | None => Fault
+        | Some tp' => Ok tp'
+        end
+      else ks_claim r partInd tp
+    end
+  end.
+
+Fixpoint ks_assign_tris (m : ks_tmap) (pts : list tri) (partInd : Z) (tp : list Z) : res (list Z) :=
   match pts with
   | [] => Ok tp
   | pt :: r =>
     match ks_tri_find m (ks_rot pt) with
     | None => ks_assign_tris m r partInd tp
-    | Some j =>
-      match vset tp (Z.to_N j) partInd with
-      | None => Fault
-      | Some tp' => ks_assign_tris m r partInd tp'
-      end
+    | Some idxs => bind (ks_claim idxs partInd tp) (fun tp' => ks_assign_tris m r partInd tp')
     end
   end.
 
-Fixpoint ks_assign_parts (m : list (tri * Z)) (parts : list ks_pb) (partInd : Z) (tp : list Z) : res (list Z) :=
+Fixpoint ks_assign_parts (m : ks_tmap) (parts : list ks_pb) (partInd : Z) (tp : list Z) : res (list Z) :=
   match parts with
   | [] => Ok tp
   | p :: r => bind (ks_assign_tris m (kb_tt p) partInd tp) (fun tp' => ks_assign_parts m r (partInd + 1)%Z tp')
